@@ -470,6 +470,7 @@ def run(ctx):
     enc = corr_encode(ctx, batch, cases)
     corr_decode(ctx, batch, cases, enc, 2 if ctx.quick else 4)
     pt_der(ctx, batch, cases, enc)
+    pt_real_der(ctx, 100 if ctx.quick else 3000)
     scope_checks(ctx, batch, cases, 'enc')
     batch.run()
     ctx.extra['open_theorems'] = OPEN
@@ -480,6 +481,56 @@ def run(ctx):
 OPEN = ['der_reencode (der_encode (norm v) = der_encode v)',
         'scope_enc.default_ok and compiles_der are fuel-indexed to the bottom: recursive types with DEFAULT components in the '
         'recursive part (resp. all recursive types for der_roundtrip) are outside those hypotheses (counted in scope:*)']
+
+
+def x690_der_real(x):
+    """Independent DER contents octets of a REAL (X.690 8.5 with the restrictions of 11.3: base 2, mantissa zero or
+    odd, mantissa and exponent in the fewest octets), integer arithmetic only."""
+    import math
+    from fractions import Fraction
+    if x != x:
+        return b'\x42'
+    if x == float('inf'):
+        return b'\x40'
+    if x == float('-inf'):
+        return b'\x41'
+    if x == 0:
+        return b'\x43' if math.copysign(1.0, x) < 0 else b''
+    f = Fraction(abs(x))
+    m, e = f.numerator, 0
+    d = f.denominator
+    while d > 1:
+        d //= 2
+        e -= 1
+    while m % 2 == 0:
+        m //= 2
+        e += 1
+    n = 1
+    while not (-(1 << (8 * n - 1)) <= e < (1 << (8 * n - 1))):
+        n += 1
+    eo = (e & ((1 << (8 * n)) - 1)).to_bytes(n, 'big')
+    first = 0x80 | (0x40 if x < 0 else 0) | (n - 1 if n <= 3 else 3)
+    head = bytes([first]) + (bytes([n]) if n > 3 else b'') + eo
+    return head + m.to_bytes((m.bit_length() + 7) // 8, 'big')
+
+
+def pt_real_der(ctx, n_random):
+    """REAL is outside the Coq universe: the DER canonical form is compared with the independent encoder on /repo."""
+    import c01
+    spec = lib.compile_string('M DEFINITIONS AUTOMATIC TAGS ::= BEGIN R ::= REAL END', 'der')
+    for x in c01.real_values(ctx.rng, n_random) + [255.0, 65535.0, 256.0, 257.0, -255.0, 3.0 * 2 ** 70, 255.0 * 2.0 ** -300]:
+        if x == 0 and str(x) == '-0.0':
+            continue                                  # known finding real-negative-zero (known_findings/C01.json)
+        want = x690_der_real(x)
+        want = b'\x09' + bytes([len(want)]) + want
+        got = lib.attempt(spec.encode, 'R', x)
+        ctx.case(('real-der', len(want), want[2:3].hex()), None)
+        ctx.count('pt-real-der')
+        if got != ('ok', want):
+            ctx.violation('DER REAL %s: library %s, X.690 11.3 canonical form %s' % (
+                x.hex(), got[1].hex() if got[0] == 'ok' else got[1:], want.hex()),
+                dict(kind='real-der', spec='M DEFINITIONS AUTOMATIC TAGS ::= BEGIN R ::= REAL END', type='R',
+                     value=x.hex(), expected=want.hex()))
 
 
 def known_findings(ctx):
